@@ -1,0 +1,90 @@
+//go:build verif
+
+package protojson
+
+// Contracts for the well-known-type text parsers (property C23).
+//
+//@ pure bytes.TrimLeft
+
+// Duration JSON grammar, from the documentation of parseDuration and the
+// property statement: optional sign; an integer part and/or a fractional part;
+// at most 9 fractional digits; suffix "s"; at least one digit in total is not
+// required of the fraction when an integer part is present ("1.s" is listed as
+// valid), but an absent integer part needs a fractional digit (".1s").
+
+func specIsDigit(c byte) bool { return '0' <= c && c <= '9' }
+
+// specDigitRun is the number of consecutive digits of in[i:end].
+//
+//@ opaque
+func specDigitRun(in string, i, end int) int {
+	if 0 <= i && i < end && end <= len(in) && specIsDigit(in[i]) {
+		return 1 + specDigitRun(in, i+1, end)
+	}
+	return 0
+}
+
+func specSignLen(in string) int {
+	if len(in) > 0 && (in[0] == '-' || in[0] == '+') {
+		return 1
+	}
+	return 0
+}
+
+// specIntLen: length of the integer part starting after the sign (0 if absent).
+func specIntLen(in string) int {
+	i := specSignLen(in)
+	end := len(in) - 1
+	if i >= end {
+		return 0
+	}
+	if in[i] == '0' {
+		return 1
+	}
+	if '1' <= in[i] && in[i] <= '9' {
+		return specDigitRun(in, i, end)
+	}
+	return 0
+}
+
+func specDurationOK(in string) bool {
+	n := len(in)
+	if n < 2 || in[n-1] != 's' {
+		return false
+	}
+	end := n - 1
+	i := specSignLen(in)
+	if i >= end {
+		return false
+	}
+	il := specIntLen(in)
+	i += il
+	if i == end {
+		return il > 0
+	}
+	if in[i] != '.' {
+		return false
+	}
+	k := specDigitRun(in, i+1, end)
+	if i+1+k != end || k > 9 {
+		return false
+	}
+	return il > 0 || k >= 1
+}
+
+//@ props C23
+//@ mode int
+//@ loop 1 invariant viewOf(b, input, size-1-len(b)) && len(intp) == n+len(b) && n >= 1 && size == len(input)
+//@ loop 1 invariant size-1-len(b) == specSignLen(input)+n
+//@ loop 1 invariant specDigitRun(input, specSignLen(input), size-1) == n+specDigitRun(input, specSignLen(input)+n, size-1)
+//@ loop 1 decreases len(b)
+//@ loop 2 invariant viewOf(b, input, size-1-len(b)) && !sameBase(b, frac[:]) && 0 <= n && n <= 9 && size == len(input)
+//@ loop 2 invariant size-1-len(b) == specSignLen(input)+specIntLen(input)+1+n
+//@ loop 2 invariant specDigitRun(input, specSignLen(input)+specIntLen(input)+1, size-1) == n+specDigitRun(input, specSignLen(input)+specIntLen(input)+1+n, size-1)
+//@ loop 2 decreases len(b)
+//@ loop 3 invariant n <= i && i <= 9
+//@ loop 3 decreases 9-i
+func contract_parseDuration(input string) (secs int64, nanos int32, ok bool) {
+	ensures(imp(ok, specDurationOK(input)))
+	return
+}
